@@ -1,7 +1,9 @@
 /-
   C01 — relate() returns the true DE-9IM matrix.
-  Property theorems only. Model: GeoModel/RelateSpec.lean (executable specification of DE-9IM),
-  GeoModel/Valid.lean (domain).
+  Property theorems only. Models: GeoModel/RelateSpec.lean (executable specification of DE-9IM),
+  GeoModel/Valid.lean (domain), GeoModel/RelateImpl*.lean (executable model of the implementation:
+  the noded topology graph of geo/src/algorithm/relate; section "the model of the implementation" at
+  the end of this file).
 -/
 import GeoModel.RelateSpec
 import GeoProofs.Lemmas.RelateSpecLemmas
@@ -18,6 +20,14 @@ import GeoProofs.Lemmas.C01QAreal
 import GeoProofs.Lemmas.C01QPoint
 import GeoProofs.Lemmas.C01QTriangle
 import GeoProofs.Lemmas.C01QLine
+import GeoProofs.Lemmas.LocateLemmas
+import GeoProofs.Lemmas.RELMMono
+import GeoProofs.Lemmas.RELMDisjoint
+import GeoProofs.Lemmas.RELMSwap
+import GeoProofs.Lemmas.RELMAtoms
+import GeoProofs.Lemmas.RELMPoint4
+import GeoProofs.Lemmas.RELMPointPoint
+import GeoProofs.Lemmas.RELMMultiPoint
 import Mathlib.Tactic.NormNum
 
 namespace Geo.Proofs.C01
@@ -896,5 +906,201 @@ example : (relateSpec (.line ⟨0, 0⟩ ⟨2, 0⟩) (.line ⟨1, 0⟩ ⟨3, 0⟩
     ⟨0, by norm_num, by norm_num, by norm_num, by norm_num⟩,
     ⟨1, by norm_num, by norm_num, by norm_num, by norm_num⟩,
     ⟨1/2, by norm_num, by norm_num, by norm_num, by norm_num⟩⟩
+
+/-! ## The model of the implementation (`relateImpl`, GeoModel/RelateImpl*.lean)
+
+`RI.relateImplWith ar a b : Option IM` mirrors `RelateOperation::compute_intersection_matrix`
+statement by statement (`none` = the code panics); `ar : RI.Arith` is the float arithmetic the
+algorithm depends on (crossing point of a proper intersection, coordinate subtraction).
+`RI.relateImpl? = RI.relateImplWith RI.Arith.exact`, `relateImpl a b` is its value with
+`empty_disjoint()` for a panic. Theorems stated for every `ar` hold in particular for the exact
+model and for the arithmetic of the correspondence check (`C01.impl`). -/
+
+section Impl
+open Geo.RI Geo.GG Geo.Proofs.RELM
+
+/-- [T] `set_at_least` never lowers a cell (cell-wise order by `Dimensions` rank). -/
+theorem impl_setAtLeast_monotone (m : IM) (a b : Pos) (d : Dim) : IMLe m (m.setAtLeast a b d) :=
+  le_setAtLeast m a b d
+
+/-- [T] nor do `Edge::update_intersection_matrix`, the node loop of
+`RelateOperation::update_intersection_matrix` and `compute_proper_intersection_im`. -/
+theorem impl_edgeUpdate_monotone (l : Label) (m : IM) : IMLe m (edgeUpdateIM l m) := le_edgeUpdateIM l m
+
+theorem impl_updateNodes_monotone (a b : Geom) (ns : List RNode) (m m' : IM)
+    (h : updateNodes a b ns m = some m') : IMLe m m' := le_updateNodes a b ns m m' h
+
+theorem impl_properIM_monotone (da db : Dim) (p q : Bool) (m : IM) : IMLe m (properIM da db p q m) :=
+  le_properIM da db p q m
+
+/-- [T] **matrix cells only ever increase**: the result of the graph path dominates the lower bound
+set by `compute_proper_intersection_im` (hence `empty_disjoint()`), for all operands, any arithmetic. -/
+theorem relateImpl_ge_proper (ar : Arith) (a b : Geom) {m : IM} (h : relateGraph ar a b = some m) :
+    IMLe (properIM (dims a) (dims b) (nodedGraphs ar a b).2.2.1 (nodedGraphs ar a b).2.2.2 emptyDisjoint) m :=
+  relateGraph_ge ar a b h
+
+/-- [T] **EE = 2** for every pair of operands, both paths, any arithmetic. -/
+theorem relateImplWith_ee (ar : Arith) (a b : Geom) {m : IM} (h : relateImplWith ar a b = some m) :
+    m.ee = .two := Geo.Proofs.RELM.relateImplWith_ee ar a b h
+
+/-- [T] … and for the total function (`empty_disjoint()` where the code panics). -/
+theorem relateImpl_ee (a b : Geom) : (relateImpl a b).ee = .two := by
+  unfold relateImpl relateImpl?
+  cases h : relateImplWith Arith.exact a b with
+  | none => rfl
+  | some m => exact relateImplWith_ee _ a b h
+
+/-- [T] **the result as a cell-wise maximum**: on the graph path the matrix is the fold of
+`set_at_least` over the contributions (`graphAtoms`: proper-intersection shortcut, isolated edges,
+nodes, edge-end bundles) starting from `empty_disjoint()` — the same shape as the specification's
+accumulation loop, so a cell is at least `d` iff some contribution located there has dimension ≥ `d`. -/
+theorem relateImpl_eq_fold (ar : Arith) (a b : Geom) (ga gb : RGraph) :
+    relateGraphs ar a b ga gb = (graphAtoms ar a b ga gb).map (Spec.foldFrom emptyDisjoint) :=
+  relateGraphs_eq_fold ar a b ga gb
+
+theorem relateImpl_cell (ar : Arith) (a b : Geom) (ga gb : RGraph) {m : IM} {atoms : List Atom}
+    (ha : graphAtoms ar a b ga gb = some atoms) (hm : relateGraphs ar a b ga gb = some m) (x y : Pos) (d : Dim) :
+    d.rank ≤ (m.get x y).rank ↔
+      d.rank ≤ (emptyDisjoint.get x y).rank ∨ ∃ t ∈ atoms, t.posA = x ∧ t.posB = y ∧ d.rank ≤ t.dim.rank :=
+  relateGraphs_get ar a b ga gb ha hm x y d
+
+/-- [T] **disjoint-envelope shortcut of the implementation**: operands whose bounding rectangles do
+not intersect (or one of which has none) get `compute_disjoint` of their `HasDimensions` answers. -/
+theorem relateImpl_disjoint_shortcut (ar : Arith) (a b : Geom) (h : envelopesMeet a b = false) :
+    relateImplWith ar a b = some (computeDisjoint (dims a) (boundaryDims a) (dims b) (boundaryDims b)) :=
+  relateImplWith_of_disjoint ar a b h
+
+/-- [T] **the shortcut is sound**: for such operands the model of the implementation returns the
+specification's matrix.
+Full statement (no hypotheses beyond `envelopesMeet a b = false` and validity): open for polygons with
+holes — needs "hole coordinates lie in the shell's bounding box", here the hypothesis `CoordsInBox`
+(proved for all geometries without hole coordinates: `relateImpl_disjoint_eq_spec_noInteriors`) — and
+inherits the `DimsSpec` hypotheses of `relateSpec_disjoint_eq_partial` (proved per type above). -/
+theorem relateImpl_disjoint_eq_spec_partial (ar : Arith) {a b : Geom} {ra rb : Pt × Pt}
+    (ha : boundingRect a = some ra) (hb : boundingRect b = some rb) (h : envelopesMeet a b = false)
+    (ia : CoordsInBox a) (ib : CoordsInBox b)
+    (ca : Spec.ClosedExt (parts a)) (cb : Spec.ClosedExt (parts b)) (da : Spec.DimsSpec a) (db : Spec.DimsSpec b) :
+    relateImplWith ar a b = some (relateSpec a b) :=
+  relateImplWith_disjoint_eq_spec ar ha hb h ia ib ca cb da db
+
+/-- [T] … for all operands without hole coordinates (every type but polygons with holes), empty ones
+included. -/
+theorem relateImpl_disjoint_eq_spec_noInteriors (ar : Arith) {a b : Geom} (h : envelopesMeet a b = false)
+    (hva : Geo.Proofs.C19.rectsValid a = true) (hna : Geo.Proofs.C19.noInteriors a = true)
+    (hvb : Geo.Proofs.C19.rectsValid b = true) (hnb : Geo.Proofs.C19.noInteriors b = true)
+    (ca : Spec.ClosedExt (parts a)) (cb : Spec.ClosedExt (parts b)) (da : Spec.DimsSpec a) (db : Spec.DimsSpec b) :
+    relateImplWith ar a b = some (relateSpec a b) :=
+  relateImplWith_disjoint_eq_spec_noInteriors ar h hva hna hvb hnb ca cb da db
+
+/-- a segment and a rectangle with disjoint envelopes -/
+example : relateImpl? (.line ⟨0, 0⟩ ⟨1, 1⟩) (.rect ⟨5, 0⟩ ⟨7, 2⟩) =
+    some (relateSpec (.line ⟨0, 0⟩ ⟨1, 1⟩) (.rect ⟨5, 0⟩ ⟨7, 2⟩)) := by
+  apply relateImpl_disjoint_eq_spec_noInteriors _ (by decide +kernel) rfl rfl (by decide +kernel) rfl
+  · intro q hq; simp [parts] at hq
+  · intro q hq
+    simp only [parts, List.mem_singleton] at hq
+    subst hq; rfl
+  · exact dimsSpec_line _ _
+  · exact dimsSpec_rect _ _ (by norm_num) (by norm_num)
+
+/-- [T] **label-swap invariance (C17)**: the graph a prepared geometry hands out for operand position
+`idx` — `clone_for_arg_index(idx)` of the cache built and self-noded for index 0 — is the graph
+`relate` builds and self-nodes for the plain operand. -/
+theorem preparedGraph_eq_fresh (ar : Arith) (idx : Nat) (h : idx = 0 ∨ idx = 1) (g : Geom) :
+    preparedGraph ar idx g = freshGraph ar idx g := Geo.Proofs.RELM.preparedGraph_eq_fresh ar idx h g
+
+/-- [T] **prepared path = plain path** for the model of the implementation: whichever operands are
+prepared, the matrix is the one of the plain geometries. -/
+theorem relatePrepared_eq_plain (ar : Arith) (pa pb : Bool) (a b : Geom) :
+    relatePreparedWith ar pa pb a b = relateImplWith ar a b := relatePreparedWith_eq ar pa pb a b
+
+/-- [T] self-noding neither reads nor writes labels (coordinates and labels of the edges stay as
+`GeometryGraph::new` made them). -/
+theorem selfNoding_keeps_labels (ar : Arith) (check : Bool) (es : List REdge) :
+    (selfIntersections ar check es).map toEdge = es.map toEdge := selfIntersections_toEdge ar check es
+
+/-- [T] **Point × Point**: the model of the implementation returns the specification's matrix. -/
+theorem relateImpl_point_point (ar : Arith) (p q : Pt) :
+    relateImplWith ar (.point p) (.point q) = some (relateSpec (.point p) (.point q)) :=
+  relateImplWith_point_point ar p q
+
+/-- [T] **MultiPoint × MultiPoint**: the model of the implementation returns the specification's
+matrix, for all coordinate lists (empty, repeated points included). -/
+theorem relateImpl_multiPoint_multiPoint (ar : Arith) (ps qs : List Pt) :
+    relateImplWith ar (.multiPoint ps) (.multiPoint qs) = some (relateSpec (.multiPoint ps) (.multiPoint qs)) :=
+  relateImplWith_multiPoint ar ps qs
+
+/-- [T] **Point × anything, rows Interior and Boundary** (graph path, every geometry `B`, valid or
+not): the Boundary row is `F` and the Interior row has a single `0`, in the column of the position
+`q` the node map records for `p` w.r.t. `B`. -/
+theorem relateImpl_point_rows (ar : Arith) (p : Pt) (b : Geom) {m : IM} (h : relateGraph ar (.point p) b = some m) :
+    ∃ labeled n q,
+      labeledNodes (.point p) b (freshGraph ar 0 (.point p)) (freshGraph ar 1 b) = some labeled ∧
+      findR p labeled = some n ∧ n.label.b = .lineOrPoint (some q) ∧
+      ∀ X Y, X ≠ .outside → m.get X Y = if X = .inside ∧ q = Y then .zero else .empty :=
+  point_rows ar p b h
+
+/-- [T] … and `q = B.coordinate_position(p)` (`label_isolated_node`) whenever `p` is neither a node
+of `B`'s graph nor an intersection recorded on its edges. -/
+theorem relateImpl_point_rows_isolated (ar : Arith) (p : Pt) (b : Geom) {m : IM}
+    (h : relateGraph ar (.point p) b = some m)
+    (h1 : ∀ e ∈ (freshGraph ar 1 b).edges, p ∉ e.eis.map (·.coord))
+    (h2 : p ∉ (freshGraph ar 1 b).nodes.map (·.coord)) (X Y : Pos) (hX : X ≠ .outside) :
+    m.get X Y = if X = .inside ∧ coordPos b p = Y then .zero else .empty :=
+  point_rows_isolated ar p b h h1 h2 X Y hX
+
+/-- [T] **Point × anything through `coordinate_position`**: these rows are the rows of the
+specification wherever `coordinate_position` is `locate` (C02: `coordPos_*_eq_locate*`).
+Full statement (all `p`, all valid `B`, both paths, whole matrix): open — the case of `p` a node of
+`B`'s graph needs the node labels of `B` (mod-2 rule, C17 `mod2_rule`) tied to `locate`, the Exterior row
+is the correctness of `relate` on `B`'s own components. -/
+theorem relateImpl_point_rows_eq_spec_partial (ar : Arith) (p : Pt) (b : Geom) {m : IM}
+    (h : relateGraph ar (.point p) b = some m)
+    (h1 : ∀ e ∈ (freshGraph ar 1 b).edges, p ∉ e.eis.map (·.coord))
+    (h2 : p ∉ (freshGraph ar 1 b).nodes.map (·.coord)) (hloc : coordPos b p = locate b p)
+    (X Y : Pos) (hX : X ≠ .outside) :
+    m.get X Y = (relateSpec (.point p) b).get X Y := by
+  rw [point_rows_isolated ar p b h h1 h2 X Y hX, relateSpec_point_row p b X Y hX, hloc]
+
+/-- a point in the interior of a segment, on the interior of a triangle's edge -/
+example : ∀ m, relateGraph Arith.exact (.point ⟨1, 1⟩) (.line ⟨0, 0⟩ ⟨2, 2⟩) = some m →
+    m.get .inside .inside = (relateSpec (.point ⟨1, 1⟩) (.line ⟨0, 0⟩ ⟨2, 2⟩)).get .inside .inside := by
+  intro m h
+  exact relateImpl_point_rows_eq_spec_partial _ _ _ h (by decide +kernel) (by decide +kernel)
+    (Geo.Proofs.Loc.coordPos_line_eq_locate _ _ _) _ _ (by decide)
+
+/-- [T] **the transpose law does not hold of the code as written** for all inputs: a zero-length
+`Line` (an invalid operand) makes an edge end of length zero, whose `EdgeEndKey` compares `Equal` to
+every other key, so the bundles of the star depend on which operand's edge ends are inserted first.
+Witness: a triangle and a zero-length `Line` at one of its vertices — `relate(T, L) = FF21F1FF2`,
+`relate(L, T) = 10FFFF2F2` (the real code returns the same two matrices: corpus/C01.ops). -/
+theorem relateImpl_transpose_fails_witness :
+    relateImpl? (.polygon ⟨[⟨1, 1⟩, ⟨3, 1⟩, ⟨1, 3⟩, ⟨1, 1⟩], []⟩) (.line ⟨1, 1⟩ ⟨1, 1⟩) ≠
+      (relateImpl? (.line ⟨1, 1⟩ ⟨1, 1⟩) (.polygon ⟨[⟨1, 1⟩, ⟨3, 1⟩, ⟨1, 3⟩, ⟨1, 1⟩], []⟩)).map IM.transpose := by
+  decide +kernel
+
+/-- … while it holds on the valid neighbours of the witness (the same triangle against a segment
+ending at the vertex, and against the point) -/
+example : relateImpl? (.polygon ⟨[⟨1, 1⟩, ⟨3, 1⟩, ⟨1, 3⟩, ⟨1, 1⟩], []⟩) (.line ⟨1, 1⟩ ⟨0, 0⟩) =
+    (relateImpl? (.line ⟨1, 1⟩ ⟨0, 0⟩) (.polygon ⟨[⟨1, 1⟩, ⟨3, 1⟩, ⟨1, 3⟩, ⟨1, 1⟩], []⟩)).map IM.transpose := by
+  decide +kernel
+
+example : relateImpl? (.polygon ⟨[⟨1, 1⟩, ⟨3, 1⟩, ⟨1, 3⟩, ⟨1, 1⟩], []⟩) (.point ⟨1, 1⟩) =
+    (relateImpl? (.point ⟨1, 1⟩) (.polygon ⟨[⟨1, 1⟩, ⟨3, 1⟩, ⟨1, 3⟩, ⟨1, 1⟩], []⟩)).map IM.transpose := by
+  decide +kernel
+
+/-- the model of the implementation and the specification on two overlapping squares, a line
+crossing a polygon with a hole, and two line strings sharing an end point (evaluated by the kernel) -/
+example : relateImpl? (.polygon ⟨[⟨0, 0⟩, ⟨2, 0⟩, ⟨2, 2⟩, ⟨0, 2⟩, ⟨0, 0⟩], []⟩)
+      (.polygon ⟨[⟨1, 1⟩, ⟨3, 1⟩, ⟨3, 3⟩, ⟨1, 3⟩, ⟨1, 1⟩], []⟩) =
+    some (relateSpec (.polygon ⟨[⟨0, 0⟩, ⟨2, 0⟩, ⟨2, 2⟩, ⟨0, 2⟩, ⟨0, 0⟩], []⟩)
+      (.polygon ⟨[⟨1, 1⟩, ⟨3, 1⟩, ⟨3, 3⟩, ⟨1, 3⟩, ⟨1, 1⟩], []⟩)) := by
+  decide +kernel
+
+example : relateImpl? (.lineString [⟨0, 0⟩, ⟨1, 1⟩, ⟨2, 0⟩]) (.lineString [⟨2, 0⟩, ⟨2, 2⟩]) =
+    some (relateSpec (.lineString [⟨0, 0⟩, ⟨1, 1⟩, ⟨2, 0⟩]) (.lineString [⟨2, 0⟩, ⟨2, 2⟩])) := by
+  decide +kernel
+
+end Impl
 
 end Geo.Proofs.C01
